@@ -208,6 +208,97 @@ Proof.
   - rewrite app_nil_r. apply in_seq. lia.
 Qed.
 
+(* ------------------------------------------------------------------ duplicate pattern entries *)
+
+Lemma store_col_fixed_length : forall pat seen vs icol col,
+  length (store_col_fixed seen pat vs icol col) = length vs.
+Proof. induction pat; destruct vs; simpl; intros; auto. Qed.
+
+Lemma eqb2_false_ne : forall a b, eqb2 a b = false <-> a <> b.
+Proof.
+  intros. split; intro H.
+  - intro E. apply eqb2_true in E. congruence.
+  - destruct (eqb2 a b) eqn:E; auto. apply eqb2_true in E. congruence.
+Qed.
+
+(* the column being stored: the dense (summed) value is the column value exactly once *)
+Lemma dense_sum_stored : forall pat seen vs icol col r,
+  length vs = length pat ->
+  (dense_sum pat (store_col_fixed seen pat vs icol col) r icol ==
+   if existsb (eqb2 (r, icol)) seen then 0
+   else if in_pat pat r icol then col r else 0)%Q.
+Proof.
+  induction pat as [|e pat IH]; intros seen vs icol col r Hl.
+  - destruct vs; simpl; destruct (existsb (eqb2 (r, icol)) seen); reflexivity.
+  - destruct vs as [|v vs]; simpl in Hl; try lia.
+    cbn [store_col_fixed dense_sum]. rewrite IH by lia.
+    unfold in_pat. cbn [existsb].
+    destruct (eqb2 e (r, icol)) eqn:E.
+    + apply eqb2_true in E. subst e. cbn [fst snd]. rewrite Nat.eqb_refl.
+      assert (E2 : eqb2 (r, icol) (r, icol) = true) by (apply eqb2_true; reflexivity).
+      rewrite E2. cbn [orb].
+      destruct (existsb (eqb2 (r, icol)) seen); ring.
+    + assert (E2 : eqb2 (r, icol) e = false).
+      { apply eqb2_false_ne. apply eqb2_false_ne in E. congruence. }
+      rewrite E2. cbn [orb].
+      destruct (existsb (eqb2 (r, icol)) seen); try ring.
+Qed.
+
+(* every other column of the dense view is untouched *)
+Lemma dense_sum_other : forall pat seen vs icol col r c,
+  c <> icol ->
+  (dense_sum pat (store_col_fixed seen pat vs icol col) r c == dense_sum pat vs r c)%Q.
+Proof.
+  induction pat as [|e pat IH]; intros seen vs icol col r c Hc.
+  - destruct vs; reflexivity.
+  - destruct vs as [|v vs]; [reflexivity|].
+    cbn [store_col_fixed dense_sum]. rewrite IH by auto.
+    destruct (eqb2 e (r, c)) eqn:E; [|reflexivity].
+    apply eqb2_true in E. subst e. cbn [snd].
+    destruct (Nat.eqb_spec c icol); try congruence; reflexivity.
+Qed.
+
+(* for EVERY pattern -- duplicates or not -- after the repaired store of all columns the dense view
+   of the stored values is the approximated matrix on the pattern and zero elsewhere *)
+Theorem dedup_store_dense_sum : forall pat ncols (M : nat -> nat -> Q) r c,
+  c < ncols ->
+  (dense_sum pat (store_all true pat (matrix_cols M ncols) (map (fun _ => 0%Q) pat)) r c ==
+   if in_pat pat r c then M r c else 0)%Q.
+Proof.
+  intros pat ncols M r c Hc. unfold matrix_cols.
+  assert (G : forall cs vs done,
+             length vs = length pat ->
+             (In c done -> (dense_sum pat vs r c == if in_pat pat r c then M r c else 0)%Q) ->
+             In c (cs ++ done) ->
+             (dense_sum pat (store_all true pat (map (fun c0 => (c0, fun r0 => M r0 c0)) cs) vs) r c ==
+              if in_pat pat r c then M r c else 0)%Q).
+  { induction cs as [|c' cs IH]; intros vs done Hl Hd Hin.
+    - simpl in *. auto.
+    - cbn [map store_all fold_left fst snd].
+      apply (IH _ (c' :: done)).
+      + rewrite store_col_fixed_length. auto.
+      + intros Hin'. destruct (Nat.eq_dec c c').
+        * subst c'. rewrite dense_sum_stored by auto. reflexivity.
+        * rewrite dense_sum_other by auto. destruct Hin' as [E|Hin']; [congruence|auto].
+      + simpl in Hin. destruct Hin as [E|Hin].
+        * apply in_or_app. right. left. auto.
+        * apply in_app_or in Hin. apply in_or_app. destruct Hin; [left|right; right]; auto. }
+  apply (G (seq 0 ncols) _ []).
+  - rewrite map_length. reflexivity.
+  - intros [].
+  - rewrite app_nil_r. apply in_seq. lia.
+Qed.
+
+(* the store of the pinned source doubles a duplicated entry *)
+Theorem dup_store_present_refuted :
+  exists pat ncols (M : nat -> nat -> Q) r c,
+    c < ncols /\ in_pat pat r c = true /\
+    ~ (dense_sum pat (store_all false pat (matrix_cols M ncols) (map (fun _ => 0%Q) pat)) r c == M r c)%Q.
+Proof.
+  exists [(0, 0); (0, 0)], 1, (fun _ _ => 3%Q), 0, 0.
+  split. lia. split. reflexivity. vm_compute. discriminate.
+Qed.
+
 (* ------------------------------------------------------------------ get_tol_violation *)
 
 Lemma gtb_false : forall a b, gtb a b = false -> (a <= b)%Q.
